@@ -6,7 +6,7 @@ CONSTANTS
   DesSet = {1, 2, 3}
   SaltSet = {0}
   EstSet = {1, 2, 3}
-  FltSet = {1, 2, 3}
+  FltSet = {1, 3, 5, 6}
   WSet = {1, 2}
   Emit = TRUE
 INIT Init
